@@ -2,6 +2,8 @@ import HbsModel.Registry
 import HbsModel.Lemmas.RM
 import HbsModel.Lemmas.Write
 import HbsModel.Lemmas.CompilePlain
+import HbsModel.Lemmas.CompileComment
+import HbsModel.Lemmas.RenderPlain
 import HbsModel.Lemmas.Assoc
 /-
   C03  Template text outside tags is reproduced verbatim.
@@ -215,5 +217,87 @@ example : noEscBrace ['a', '{', '{', 'x', '}', '}', '{', '{', '{', '\\', 'b', '\
     line breaks and non-ASCII -/
 example : noOpen ['a', '{', 'b', '\\', '{', '"', '\n', '}', 'é', '\r', '{'] := by
   simp [noOpen, PlainText.noOpen]
+
+/-! ### text around a comment: `comments write nothing`, the text around them is kept, and whitespace
+    goes only where the standalone-line rule says so – at source level, for EVERY text and comment body -/
+
+/-- text that may stand in front of a tag: no `{{` inside, and neither `{` nor `\` at its end (they
+    would join the tag's own braces: `{{{` / `\{{`) -/
+abbrev TextBeforeTag := PlainText.TextBeforeTag
+/-- a comment body: no `}}` inside, no `}` at its end … -/
+abbrev CommentText := PlainText.CommentText
+/-- … and not – after whitespace – starting with `--` (that is the long comment form) -/
+abbrev noDash := PlainText.noDash
+/-- the standalone-line test of `process_standalone_statement`, on the text before and after the tag -/
+abbrev standalone := PlainText.standalone
+/-- `{{!` c `}}` -/
+abbrev comment (c : Str) : Str := PlainText.cmtSrc c
+
+/-- **render(L ++ {{!c}} ++ R)**, for any data, for EVERY text `L` that may stand before a tag, EVERY
+    comment body `c` and EVERY text `R` without `{{`: the comment writes nothing; when it does not stand
+    alone on its line the output is exactly `L ++ R` – the whitespace pest's implicit skipping dropped
+    after the tag is put back by compile2; when it stands alone on its line, exactly the blanks in front
+    of it and the blanks and first line break behind it are gone.  Proved from the source string through
+    the grammar regenerated from src/grammar.pest, the loop of compile2 and the renderer. -/
+theorem text_around_comment_is_kept (r : Registry) (fs : FS) (L c R : Str) (data : Json) (hdev : r.dev = false)
+    (hL : L = [] ∨ TextBeforeTag L) (hc : CommentText c) (hd : noDash c) (hR : noOpen R) :
+    r.renderTemplate fs (L ++ comment c ++ R) data
+      = .ok (if standalone L R false then trimEndBlank L ++ stripFirstNewline (trimStartBlank R) else L ++ R) := by
+  unfold Registry.renderTemplate Registry.renderTemplateToWrite Registry.renderTemplateWithContextToWrite
+    Registry.compileForRenderTemplate
+  obtain ⟨txt, m, hcomp⟩ := PlainText.compile_text_comment L c R { preventIndent := r.preventIndent } hL hc hd hR
+  rw [hcomp]
+  simp only [Registry.renderResolved, hdev, Bool.not_false, ↓reduceIte]
+  have hplain : ∀ e ∈ (PlainText.leftT L (if PlainText.standalone L R false then trimEndBlank L else L)).elements ++ [Elem.comment txt]
+      ++ (if R = [] then [] else [Elem.raw (if PlainText.standalone L R false then stripFirstNewline (trimStartBlank R) else R)]),
+      plainElem e = true := by
+    intro e he
+    simp only [List.mem_append, List.mem_singleton] at he
+    rcases he with (he | rfl) | he
+    · unfold PlainText.leftT at he
+      split at he
+      · simp [Tmpl.empty, Tmpl.elements] at he
+      · simp [Tmpl.elements] at he; subst he; rfl
+    · rfl
+    · split at he
+      · simp at he
+      · simp at he; subst he; rfl
+  have hlen : ((PlainText.leftT L (if PlainText.standalone L R false then trimEndBlank L else L)).elements ++ [Elem.comment txt]
+      ++ (if R = [] then [] else [Elem.raw (if PlainText.standalone L R false then stripFirstNewline (trimStartBlank R) else R)])).length
+      + 10 ≤ renderFuel := by
+    have h1 : (PlainText.leftT L (if PlainText.standalone L R false then trimEndBlank L else L)).elements.length ≤ 1 := by
+      unfold PlainText.leftT; split <;> simp [Tmpl.empty, Tmpl.elements]
+    have h2 : (if R = [] then [] else [Elem.raw (if PlainText.standalone L R false then stripFirstNewline (trimStartBlank R) else R)]).length ≤ 1 := by
+      split <;> simp
+    simp only [List.length_append, List.length_singleton]
+    have : renderFuel = 4000 := rfl
+    omega
+  have hr := render_plain_template r data (.mk none _ m) hplain hlen { rootTemplate := none } rfl
+  simp only [Tmpl.name] at hr ⊢
+  rw [hr]
+  congr 1
+  simp only [Tmpl.elements, standalone]
+  by_cases hLe : L = []
+  · subst hLe
+    by_cases hRe : R = []
+    · subst hRe
+      by_cases hsa : PlainText.standalone [] [] false = true <;>
+        simp [hsa, PlainText.leftT, Tmpl.empty, Tmpl.elements, elemsText, trimEndBlank, dropWhileEnd, trimStartBlank, stripFirstNewline]
+    · by_cases hsa : PlainText.standalone [] R false = true <;>
+        simp [hsa, PlainText.leftT, Tmpl.empty, Tmpl.elements, elemsText, hRe, trimEndBlank, dropWhileEnd]
+  · by_cases hRe : R = []
+    · subst hRe
+      by_cases hsa : PlainText.standalone L [] false = true <;>
+        simp [hsa, PlainText.leftT, hLe, Tmpl.elements, elemsText, trimStartBlank, stripFirstNewline]
+    · by_cases hsa : PlainText.standalone L R false = true <;>
+        simp [hsa, PlainText.leftT, hLe, Tmpl.elements, elemsText, hRe]
+
+/-- non-vacuity: a comment that stands alone on its line, and one that does not -/
+example : standalone ['a', '\n', ' ', ' '] [' ', '\n', 'b'] false = true
+    ∧ standalone ['a', ' '] [' ', 'b'] false = false
+    ∧ TextBeforeTag ['a', '{', '\n', ' '] ∧ CommentText [' ', 'x', '}', ' ', '-', '-'] ∧ noDash [' ', '-', 'x'] := by
+  refine ⟨by decide, by decide, ⟨by simp [PlainText.noOpen], by simp, by simp⟩, ⟨by simp [PlainText.noClose], by simp⟩, ?_⟩
+  intro t h
+  simp [List.dropWhile, isPestWs] at h
 
 end Hbs.C03
